@@ -14,8 +14,8 @@ NoJob == [fmt |-> "~", o |-> {}, gfsep |-> "-", sid |-> 0]
 
 Init == /\ \E n \in 1..N : \E tk \in [1..n -> TokKinds] :
              tree = Flat(n, CAttrC(VRootC, Dash2),
-                         [p \in 1..n |-> TAttrC(IF tk[p].sfx THEN tk[p].word \o NumChars(p) ELSE tk[p].word,
-                                                  tk[p].tag, tk[p].edge)])
+                         [p \in 1..n |-> [TAttrC(IF tk[p].sfx THEN tk[p].word \o NumChars(p) ELSE tk[p].word, tk[p].tag, tk[p].edge)
+                                          EXCEPT !.lemma = tk[p].lemma, !.morph = tk[p].morph]])
         /\ phase = "build" /\ job = NoJob
 Build == /\ phase = "build"
          /\ \E Y \in Cands(tree.n) : \E lab \in CLabels : \E e \in CEdges :
